@@ -63,6 +63,11 @@ FLIP = {
     'slcomment': ['//', '/', '\n'],
 }
 CHARS = "aZ0_'\"-;:,()*/\n \t.=<>[]\\\x00é!"
+# "arbitrary strings": an opening delimiter that is never closed, followed by a long run of one short unit --
+# the shape on which an ambiguous token pattern back-tracks exponentially
+REDOS_OPEN = ['"', "'", '/*', '//', '(', '[', 'x = "', "select any a related by b->C[R1.'", '1.', '1e', 'a::', 'end ']
+REDOS_UNIT = ['\\', '\\"', 'a', '*', '* ', '/', '\n', '\r\n', ' ', '\t', '.', '1', 'e+', '::', "''", '*/ /*', 'end\n']
+REDOS_N = [12, 17, 22, 30, 40]
 WS = ' \t\n\r'
 
 EXPR = ('BinaryOperationNode', 'UnaryOperationNode', 'IntegerNode', 'RealNode', 'StringNode', 'BooleanNode',
@@ -265,6 +270,15 @@ class OalFaultEngine(Engine):
             ops += [{'k': 'double', 'f': [rng.choice(sites), rng.choice(sites)]} for _ in range(hi - lo)]
         else:
             ops += sites[lo:hi]
+        if lo == 0 and b % 8 == 0:
+            # pathological repetition probes, shortest first and before everything else
+            redos = []
+            for n in REDOS_N:
+                for o in range(len(REDOS_OPEN)):
+                    for u in range(len(REDOS_UNIT)):
+                        if tier != 'quick' or (o + u + b // 8) % 3 == 0:
+                            redos.append({'k': 'redos', 'o': o, 'u': u, 'n': n})
+            ops = redos + ops
         cfg = {'body': name, 'e2e': 1.0 if mode == 2 else 0.04, 'route_seed': rng.getrandbits(32),
                'meter_every': 9, 'slow_s': self.SLOW_S, 'fresh_parser_every': 50}
         return {'prop': prop, 'engine': self.name, 'seed': seed, 'cfg': cfg, 'ops': ops}
@@ -306,6 +320,9 @@ class OalFaultEngine(Engine):
                 k = op['k']
                 if k == 'none':
                     text = body
+                elif k == 'redos':
+                    head = body[:body.find(';') + 1] if ';' in body[:200] else ''
+                    text = head + '\n' + REDOS_OPEN[op['o']] + REDOS_UNIT[op['u']] * op['n']
                 elif k == 'double':
                     text = body
                     for f in op['f']:
@@ -484,7 +501,7 @@ class OalFaultEngine(Engine):
 
     def reach_missing(self, prop, tier, probes, faults):
         missing = []
-        for k in ('trunc', 'ws_flip', 'tok_del', 'tok_dup', 'tok_swap', 'tok_flip', 'chr_flip', 'delim'):
+        for k in ('trunc', 'ws_flip', 'tok_del', 'tok_dup', 'tok_swap', 'tok_flip', 'chr_flip', 'delim', 'redos'):
             if not probes.get(k + '_tree'):
                 missing.append(k + '_tree')
             if not probes.get(k + '_ParseException'):
